@@ -354,5 +354,9 @@ func (o *objectGoSlice) sortGet(i int) Value {
 }
 
 func (o *objectGoSlice) swap(i int, j int) {
+	if i >= len(*o.data) || j >= len(*o.data) {
+		// the comparator has shrunk the slice while it is being sorted
+		return
+	}
 	(*o.data)[i], (*o.data)[j] = (*o.data)[j], (*o.data)[i]
 }
